@@ -93,6 +93,10 @@ class Gen:
         """shapes at which a rule of of_peep.c fires (unit / zero / power of two / negated operand /
         equal operands / inverse operations), with and without side effects in the operands"""
         a, b = self.sint(d - 1), self.sint(d - 1)
+        if self.r.random() < 0.4:
+            a = "imp(%s)" % a
+        if self.r.random() < 0.4:
+            b = "imp(%s)" % b
         k = self.r.randrange(14)
         if k == 0:
             return self.call("SIntPlus", self.call("SIntNegate", a), b)
@@ -125,6 +129,14 @@ class Gen:
     def aimed_bool(self, d):
         a, b = self.sint(d - 1), self.sint(d - 1)
         p, q = self.boolean(d - 1), self.boolean(d - 1)
+        if self.r.random() < 0.4:
+            a = "imp(%s)" % a
+        if self.r.random() < 0.4:
+            b = "imp(%s)" % b
+        if self.r.random() < 0.4:
+            p = "impb(%s)" % p
+        if self.r.random() < 0.4:
+            q = "impb(%s)" % q
         k = self.r.randrange(12)
         if k == 0:
             return self.call("BoolNot", self.call(self.r.choice(["SIntLE", "SIntEQ", "SIntNE", "SIntLT"]), a, b))
@@ -388,7 +400,13 @@ def apply_pass(model, fr, t, which, flag, swaps):
     if which == "peep":
         st, ans = ans.split(" ", 1)
         if st == "swap":
-            swaps.append((t2[1] if t2[0] == "BCall" else t2[0], show(t2)[:200]))
+            txt = show(t2)
+            if re.search(r"\(BCall BoolNot \(BCall \w+ ", txt):
+                swaps.append(("BoolNot", txt[:200]))
+            if re.search(r"\(BCall SIntPlus \((BCall SIntNegate|SInt -)", txt):
+                swaps.append(("SIntPlus", txt[:200]))
+            if not swaps or swaps[-1][1] != txt[:200]:
+                swaps.append(("other", txt[:200]))
     return fr.from_model(parse_sexpr(ans))
 
 
